@@ -11,7 +11,7 @@ package seccomp
 //@   returns_elem syscalls
 //@   ensures @found result != nil ==> (syscalls[idx(result)].Num == syscall && forall(j, 0, idx(result), syscalls[j].Num != syscall))
 //@   ensures @absent result == nil ==> forall(j, 0, len(syscalls), syscalls[j].Num != syscall)
-//@   loop 1 binder k
+//@   loop 1 binder k match range syscalls
 //@     invariant @none_before forall(j, 0, k, syscalls[j].Num != syscall)
 
 // ---------------------------------------------------------------------------
@@ -280,7 +280,7 @@ package seccomp
 //@   use semInst(s, k, conditions, i, c) at loop 2 body
 //@   use allHoldStep(conditions, i, c) at loop 2 end
 //@   use anyListStep(s, k, conditions, i) at after loop 2
-//@   loop 1 binder k
+//@   loop 1 binder k match range s.Conditions
 //@     invariant @struct p != nil && nonnil(p.labels) && p.nextLabel >= N0 + 2 && nextSyscall == N0 + 1
 //@     invariant @ok {C05} p.R == R0 && (ok0 ==> ok(p))
 //@     invariant @ri {C06} riS(old(*p)) ==> riS(*p)
@@ -290,7 +290,7 @@ package seccomp
 //@     invariant @sem {C03} pre && sem ==> (g_taken(p.G)[action] == (g_taken(G0)[action] || (hdr && anyList(s, k))) && g_taken(p.G)[nextSyscall] == !hdr && g_live(p.G) == (hdr && !anyList(s, k)))
 //@     invariant @dead !g_live(G0) ==> !g_live(p.G) && g_taken(p.G)[action] == g_taken(G0)[action] && !g_taken(p.G)[nextSyscall]
 //@     invariant @next_A {C03} pre && g_taken(p.G)[nextSyscall] ==> g_tA(p.G)[nextSyscall] == ev_nr(ev)
-//@   loop 2 binder i
+//@   loop 2 binder i match range conditions
 //@     invariant @struct p != nil && nonnil(p.labels) && p.nextLabel >= noMatch && noMatch >= N0 + 3
 //@     invariant @ok {C05} p.R == R0 && (ok0 ==> ok(p))
 //@     invariant @ri {C06} riS(old(*p)) ==> riS(*p)
@@ -310,7 +310,7 @@ package seccomp
 //@   deterministic C13
 //@   frame_props C13
 //@   ensures @known result == knownOp(o)
-//@   loop 1 binder k
+//@   loop 1 binder k match range Operations
 //@     invariant @none forall(j, 0, k, Operations[j] != o)
 //@     invariant @len len(Operations) == 8 && Operations[0] == "Equal" && Operations[1] == "NotEqual" && Operations[2] == "GreaterThan" && Operations[3] == "LessThan" && Operations[4] == "GreaterOrEqual" && Operations[5] == "LessOrEqual" && Operations[6] == "BitsSet" && Operations[7] == "BitsNotSet"
 
@@ -333,7 +333,7 @@ package seccomp
 //@   frame_props C13
 //@   ensures @len_iff {C07} (len(result) == 0) == forall(i, 0, len(a), condOK(a[i]))
 //@   ensures @fresh own(result)
-//@   loop 1 binder k
+//@   loop 1 binder k match range a
 //@     invariant @problems_iff (len(problems) == 0) == forall(i, 0, k, condOK(a[i]))
 //@     invariant @own own(problems)
 
@@ -387,7 +387,7 @@ package seccomp
 //@   use anyEntryAppend(sc0, syscalls, syscalls[len(sc0)]) at loop 2 end
 //@   use anyListSingle(syscalls[len(sc0)], nc.Conditions) at loop 2 end
 //@   use anyEntryMerge(sc0, syscalls, idx(check), nc.Conditions) at loop 2 end
-//@   loop 1 binder k1
+//@   loop 1 binder k1 match range g.Names
 //@     invariant @own own(syscalls) && own(problems) && forall(j, 0, len(syscalls), own(syscalls[j].Conditions))
 //@     invariant @uncond forall(j, 0, len(syscalls), len(syscalls[j].Conditions) == 0)
 //@     invariant @sem {C01 C03} len(problems) == 0 ==> anyEntry(syscalls, len(syscalls)) == namesMatchUpTo(g, k1)
@@ -395,7 +395,7 @@ package seccomp
 //@     invariant @repr {C07} len(problems) == 0 ==> namesReprUpTo(g, syscalls, k1)
 //@     invariant @dups {C07} len(problems) == 0 ==> namesDistinctUpTo(g, k1)
 //@     invariant @nums {C07} numsDistinct(syscalls)
-//@   loop 2 binder k2
+//@   loop 2 binder k2 match range g.NamesWithCondtions
 //@     invariant @own own(syscalls) && own(problems) && forall(j, 0, len(syscalls), own(syscalls[j].Conditions))
 //@     invariant @sem {C01 C03} len(problems) == 0 ==> anyEntry(syscalls, len(syscalls)) == (namesMatchUpTo(g, len(g.Names)) || nwcMatchUpTo(g, k2))
 //@     invariant @names {C07} len(problems) == 0 ==> namesKnownUpTo(g, len(g.Names)) && namesDistinctUpTo(g, len(g.Names))
@@ -431,7 +431,7 @@ package seccomp
 //@   let m = firstIdxAbove(s, jump.index, 0)
 //@   ensures @found result1 == nil ==> isFirstAbove(s, jump.index, m) && result0 == s[m]
 //@   ensures @none result1 != nil ==> forall(j, 0, len(s), s[j] <= jump.index) && result0 == 0
-//@   loop 1 binder k
+//@   loop 1 binder k match range p.labels[label]
 //@     invariant @scan firstIdxAbove(s, jump.index, 0) == firstIdxAbove(s, jump.index, k) && forall(j, 0, k, s[j] <= jump.index)
 
 //@ func (p *Program) computeSkipN(jump JumpIf, label Label) (int, error)   properties C06
@@ -458,14 +458,14 @@ package seccomp
 //@   ensures @jumps jumpsShifted(p.jumps, old(p.jumps), after)
 //@   ensures @labels labelsShifted(p.labels, old(p.labels), after)
 //@   ensures @frame p.instructions == old(p.instructions) && p.G == old(p.G) && p.R == old(p.R) && p.nextLabel == old(p.nextLabel)
-//@   loop 1 binder k
+//@   loop 1 binder k match range p.jumps
 //@     invariant @frame1 p.instructions == old(p.instructions) && p.G == old(p.G) && p.R == old(p.R) && p.nextLabel == old(p.nextLabel) && p.labels == old(p.labels)
 //@     invariant @done1 len(p.jumps) == len(old(p.jumps)) && forall(j, 0, len(p.jumps), p.jumps[j].index == ite(j < k, sh(old(p.jumps)[j].index, after), old(p.jumps)[j].index) && p.jumps[j].trueLabel == old(p.jumps)[j].trueLabel && p.jumps[j].falseLabel == old(p.jumps)[j].falseLabel)
-//@   loop 2 binder vis
+//@   loop 2 binder vis match range p.labels
 //@     invariant @frame2 p.instructions == old(p.instructions) && p.G == old(p.G) && p.R == old(p.R) && p.nextLabel == old(p.nextLabel)
 //@     invariant @jumps2 jumpsShifted(p.jumps, old(p.jumps), after)
 //@     invariant @done2 nonnil(p.labels) == nonnil(old(p.labels)) && forallk(l, p.labels, has(p.labels, l) == has(old(p.labels), l) && len(p.labels[l]) == len(old(p.labels)[l]) && forall(m, 0, len(p.labels[l]), p.labels[l][m] == ite(vis[l], sh(old(p.labels)[l][m], after), old(p.labels)[l][m])))
-//@   loop 3 binder k3
+//@   loop 3 binder k3 match range p.labels[label]
 //@     invariant @frame3 p.instructions == old(p.instructions) && p.G == old(p.G) && p.R == old(p.R) && p.nextLabel == old(p.nextLabel)
 //@     invariant @jumps3 jumpsShifted(p.jumps, old(p.jumps), after)
 //@     invariant @done3 nonnil(p.labels) == nonnil(old(p.labels)) && forallk(l, p.labels, has(p.labels, l) == has(old(p.labels), l) && len(p.labels[l]) == len(old(p.labels)[l]) && forall(m, 0, len(p.labels[l]), p.labels[l][m] == ite(vis[l] || (l == label && m < k3), sh(old(p.labels)[l][m], after), old(p.labels)[l][m])))
@@ -708,7 +708,7 @@ package seccomp
 //@   use monoShift(jump.index + 1) at before call Program.insertBridge#4
 //@   let n0 = len(p.instructions)
 //@   let nJ = len(p.jumps)
-//@   loop 1
+//@   loop 1 match len(p.jumps) - 1
 //@     invariant @range 0 - 1 <= i && i < nJ && len(p.jumps) == nJ
 //@     invariant @frame p.G == old(p.G) && p.R == old(p.R) && p.nextLabel == old(p.nextLabel)
 //@     invariant @jumps forall(k, 0, nJ, p.jumps[k].index == ghost.apos[old(p.jumps)[k].index] && p.jumps[k].trueLabel == old(p.jumps)[k].trueLabel && p.jumps[k].falseLabel == old(p.jumps)[k].falseLabel)
@@ -799,7 +799,7 @@ package seccomp
 //@   use anyEntryZero(syscalls) at before loop 1
 //@   use entryValidInst(syscalls, k, syscall) at loop 1 body
 //@   use anyEntryStep(syscalls, k, syscall) at loop 1 body
-//@   loop 1 binder k
+//@   loop 1 binder k match range syscalls
 //@     invariant @struct nonnil(p.labels) && action == 2 && p.nextLabel >= 2 && fresh(p) && !g_done(p.G)
 //@     invariant @ok {C05} p.R == emptyRets && ok(p)
 //@     invariant @ri {C06} riS(p) && phi(p) && !has(p.labels, action)
@@ -947,7 +947,7 @@ package seccomp
 //@   hint @k0 {C05} result1 == nil ==> insnStrictOK(program, 0) && insnStrictOK(program, 2) && (jumpN > 255 ==> insnStrictOK(program, 3)) at exit
 //@   hint @k1 {C05} result1 == nil && len(program) < 4294967296 ==> insnStrictOK(program, 1) && (jumpN > 255 ==> insnStrictOK(program, 2)) at exit
 //@   hint @kx {C05} result1 == nil && p.arch.ID == 3221225534 ==> insnStrictOK(program, len(prog6)) && insnStrictOK(program, len(prog6) + 1) at exit
-//@   loop 1 binder k
+//@   loop 1 binder k match range p.Syscalls
 //@     invariant @own own(instructions) && p.arch != nil
 //@     invariant @closed {C05} closed(instructions)
 //@     invariant @rets {C05} retsActUpTo(instructions, gs, k)
@@ -982,7 +982,7 @@ package seccomp
 //@   let ls = tolower(s)
 //@   ensures @known {C14} existsk(x, actionNames, has(actionNames, x) && actionNames[x] == ls) ==> result == nil && has(actionNames, *a) && actionNames[*a] == ls
 //@   ensures @unknown {C14} !existsk(x, actionNames, has(actionNames, x) && actionNames[x] == ls) ==> result != nil && *a == old(*a)
-//@   loop 1 binder vis
+//@   loop 1 binder vis match range actionNames
 //@     invariant @none forallk(x, actionNames, vis[x] ==> actionNames[x] != s)
 //@     invariant @frame a != nil && *a == old(*a)
 
@@ -1000,7 +1000,7 @@ package seccomp
 //@   let ls = tolower(s)
 //@   ensures @known {C14} exists(j, 0, len(Operations), tolower(Operations[j]) == ls) ==> result == nil && tolower(*o) == ls && exists(j, 0, len(Operations), Operations[j] == *o)
 //@   ensures @unknown {C14} !exists(j, 0, len(Operations), tolower(Operations[j]) == ls) ==> result != nil && *o == old(*o)
-//@   loop 1 binder k
+//@   loop 1 binder k match range Operations
 //@     invariant @none forall(j, 0, k, tolower(Operations[j]) != s)
 //@     invariant @frame o != nil && *o == old(*o)
 
@@ -1028,7 +1028,7 @@ package seccomp
 //@ func sockFilter(raw []bpf.RawInstruction) []syscall.SockFilter   properties C08
 //@   ensures @len {C08} len(result) == len(raw) && own(result)
 //@   ensures @elems {C08} forall(i, 0, len(raw), result[i].Code == raw[i].Op && result[i].Jt == raw[i].Jt && result[i].Jf == raw[i].Jf && result[i].K == raw[i].K)
-//@   loop 1 binder k
+//@   loop 1 binder k match range raw
 //@     invariant @len len(filter) == k && own(filter)
 //@     invariant @elems forall(i, 0, k, filter[i].Code == raw[i].Op && filter[i].Jt == raw[i].Jt && filter[i].Jf == raw[i].Jf && filter[i].K == raw[i].K)
 
@@ -1091,7 +1091,7 @@ package seccomp
 //@ func (f FilterFlag) String() string   properties C13
 //@   deterministic C13
 //@   frame_props C13
-//@   loop 1 binder k
+//@   loop 1 binder k match range filterFlags
 //@     invariant @own own(list)
 //@ func (f FilterFlag) MarshalText() ([]byte, error)   properties C13
 //@   deterministic C13
